@@ -312,3 +312,74 @@ def write_evidence(prop, tier, seed, build_res, coverage, assumptions, wall, vio
     os.makedirs(os.path.join(VERIF, "evidence"), exist_ok=True)
     with open(os.path.join(VERIF, "evidence", f"{prop}.json"), "w") as fh:
         json.dump(ev, fh, indent=1, default=str)
+
+# --------------------------------------------------------------------------- source fingerprints
+def function_fingerprints(repo):
+    """{'formulae/x.py::Class.method': sha1 of the AST without docstrings}"""
+    import ast
+    import hashlib
+    out = {}
+
+    def strip(node):
+        for n in ast.walk(node):
+            b = getattr(n, "body", None)
+            if isinstance(b, list) and b and isinstance(b[0], ast.Expr) and isinstance(getattr(b[0], "value", None), ast.Constant) \
+                    and isinstance(b[0].value.value, str):
+                n.body = b[1:] or [ast.Pass()]
+        return node
+
+    def visit(node, prefix, rel):
+        for n in node.body:
+            if isinstance(n, (ast.FunctionDef, ast.AsyncFunctionDef)):
+                out[f"{rel}::{prefix}{n.name}"] = hashlib.sha1(ast.dump(strip(n)).encode()).hexdigest()
+            elif isinstance(n, ast.ClassDef):
+                visit(n, prefix + n.name + ".", rel)
+        rest = [n for n in node.body if not isinstance(n, (ast.FunctionDef, ast.AsyncFunctionDef, ast.ClassDef))]
+        if rest:
+            m = ast.Module(body=rest, type_ignores=[])
+            out[f"{rel}::{prefix}<body>"] = hashlib.sha1(ast.dump(strip(m)).encode()).hexdigest()
+
+    base = os.path.join(repo, "formulae")
+    for root, _, files in os.walk(base):
+        for f in sorted(files):
+            if f.endswith(".py"):
+                path = os.path.join(root, f)
+                rel = os.path.relpath(path, repo)
+                try:
+                    visit(ast.parse(open(path).read()), "", rel)
+                except SyntaxError:
+                    out[f"{rel}::<syntax-error>"] = "x"
+    return out
+
+
+def changed_functions():
+    """functions of REPO whose AST differs from fingerprints.json (added, removed or edited)"""
+    try:
+        ref = json.load(open(os.path.join(VERIF, "fingerprints.json")))["functions"]
+    except Exception:
+        return []
+    cur = function_fingerprints(REPO)
+    return sorted(k for k in set(ref) | set(cur) if ref.get(k) != cur.get(k))
+
+
+def anchored_files(prop):
+    for line in open(os.path.join(VERIF, "properties.jsonl")):
+        d = json.loads(line)
+        if d["id"] == prop:
+            return list(d.get("anchors", {}).get("files", []))
+    return []
+
+
+def touches(prop, changed):
+    """does a changed function lie in a file the property is anchored in (or in a file no property anchors)?"""
+    if not changed:
+        return False
+    mine = set(anchored_files(prop))
+    every = set()
+    for line in open(os.path.join(VERIF, "properties.jsonl")):
+        every |= set(json.loads(line).get("anchors", {}).get("files", []))
+    for k in changed:
+        f = k.split("::")[0]
+        if f in mine or f not in every:
+            return True
+    return False
